@@ -55,7 +55,7 @@ def nice_or_log(lo: float, hi: float, nice=(1.0,)):
 def grid_shape(dim: int, n_min: int, n_max: int, max_cells: int | None = None, long_axis: int | None = None):
     """Each extent independently in [n_min, n_max]; biased to non-cubic through independence.
 
-    long_axis: in a quarter of the draws one (drawn) axis gets an extent in [17, long_axis] instead - beyond the block, slab
+    long_axis: in a third of the draws one (drawn) axis gets an extent in [17, long_axis] instead - beyond the block, slab
     and chunk sizes (16, 32) that blocked/tiled implementations use, at small cost because the other axes stay short."""
     ext = st.integers(min_value=n_min, max_value=n_max)
     s = st.tuples(*([ext] * dim)).map(list)
@@ -66,7 +66,10 @@ def grid_shape(dim: int, n_min: int, n_max: int, max_cells: int | None = None, l
             if on == 0:
                 shape[ax] = n
             return shape
-        s = st.tuples(s, st.integers(0, dim - 1), st.integers(17, long_axis), st.integers(0, 3)).map(stretch)
+        # the outermost array axis (index 0) is the one blocked / parallelised implementations partition: drawn twice as often;
+        # lengths just above 16 and 32 are over-represented
+        longs = st.one_of(st.integers(17, long_axis), st.sampled_from([n for n in (18, 20, 31, 33, 34, 36, 40, 47, 48, 49, 65, 70) if n <= long_axis]))
+        s = st.tuples(s, st.sampled_from([0] + list(range(dim))), longs, st.integers(0, 2)).map(stretch)
     if max_cells is not None:
         def clip(shape):
             shape = list(shape)
